@@ -1,3 +1,6 @@
+import os
+import common
+
 CONFIG = {
     "rule": "cases = one operation on real py.String/py.Bytes objects: len, iteration, in, find/count/startswith/endswith (str or tuple argument, "
             "optional start/end), split (separator or None, maxsplit), join, strip/lstrip/rstrip (with and without argument), replace (count), "
@@ -14,6 +17,17 @@ CONFIG = {
             "all strings up to length 3 (4 thorough) over the self-synchronisation alphabet {a, U+00E9, U+0269, U+00A9, U+03A9, U+20AC, U+0082} (characters sharing "
             "continuation bytes) x needles for the searching operations, every index -5..5, 2^62, -2^63 on every string up to length 3 (4), plus VERIF_SEED-derived strings "
             "up to length 12 over a 41-symbol alphabet (UTF-8 class boundaries, U+FFFD, whitespace of every width, unprintables) and random scalar values; "
+            "THIRD ROUND: the window-fit family - every string up to length 3 (4 thorough) over one character of each UTF-8 width {a, U+00E9, U+20AC, U+1F600} "
+            "(plus 60 / 600 VERIF_SEED-derived strings up to length 6 over the wide alphabet) x every occurrence [i, i+m) of every substring (the empty needle at every "
+            "position 0..len and at len+1) x the start/end pairs {exact fit, one short, one long, one early, one late, None/absent bounds, the same window in negative "
+            "indices, bounds beyond both ends, reversed} x startswith / endswith (str, and tuple with an ASCII decoy of the needle's BYTE length) / find / count / s[a:b]; "
+            "replace with every count in {-1, 0, 1, 2, occurrences, occurrences + 1} (new = a 3-byte character or ''), split with the same maxsplit values, in, "
+            "strip/lstrip/rstrip with the substring as character set, ''-replace with every count 0..len+2; the same arguments on the methods gpython does not have "
+            "(rfind, index, rindex, rsplit, partition, rpartition, center/ljust/rjust with widths len-1..len+3 and 1-, 2-, 4-byte fill characters, zfill: cases tagged kf=C14-K02, "
+            "specification value from lean/GPy/C14/SpecMethods.lean); rt / rta / rts: eval(repr(x)) == x, eval(ascii(x)) == x with ascii(x) pure ASCII, eval(str(x)) == x for "
+            "every string up to length 2 over a 24-symbol repr alphabet (quotes, backslash, controls, DEL, C1, NEL, NBSP, U+00A1, SOFT HYPHEN, U+00FF, U+2028/2029, astral, U+10FFFF) "
+            "and length 3 over a 9-symbol one (3 / 4 thorough), alone and as items / keys / values of list, tuple and dict displays (repr text compared with the model "
+            "when the dict has at most one entry: StringDict ranges over a Go map); "
             "non-trivial = some string operand contains a non-ASCII, control, quote or backslash character, or an integer argument is None/negative/>3, "
             "or Python's result is an exception; distinct = distinct input lines",
     "trusted_base": [
@@ -22,6 +36,10 @@ CONFIG = {
         "and of the short string/bytes literal grammar and escape table of the language reference 2.4.1 (Spec.evalSource; every literal error is a SyntaxError)",
         "lean/GPy/C14/Model.lean: hand transliteration of py/string.go, Bytes.M__repr__, Tuple.repr, parser/stringescape.go, lexer.readString, builtin chr/ord; "
         "tied to /repo by the correspondence run only (every case executed on the real packages)",
+        "extract/c14units (go/ast, ~450 lines, syntactic unit inference: len(string)/strings.Index/range index/pos = byte; s.len()/RuneCountInString/indexArg/adjustIndices/"
+        "character-position parameters/len([]rune) = rune; propagation through assignment and + -): its rules are trusted; its output lean/GPy/C14/Generated/Units.lean is "
+        "regenerated from py/string.go of the working tree on every run and checked by `decide` against the reviewed table (units_table_pinned) and against the rule "
+        "no_mixed_unit_comparison / string_index_units",
         "Go library functions modelled by their documented byte-level definitions: unicode/utf8 (EncodeRune, DecodeRuneInString, range-over-string), "
         "strings (Index, Count, Replace, SplitN, HasPrefix/HasSuffix, Trim*Func, Join), strconv.ParseUint(s, 16, 32); strconv.IsPrint is a parameter of the theorems",
         "the parser/compiler/VM path from the token the lexer returns to the value eval() yields (tuple/list displays, constants) is exercised, not modelled",
@@ -34,7 +52,11 @@ CONFIG = {
         "start/end/count/maxsplit arguments, startswith/endswith (str or tuple, start/end), the six comparisons (byte order = code-point order), "
         "repr round trip of str (any IsPrint) and bytes, rejection of every non-hex-digit (signs included) in \\x/\\u/\\U windows, of \\U values above "
         "U+10FFFF and of non-ASCII characters in bytes literals; the theorems with start/end assume len(s) < 2^63-1 (a Go string cannot be longer); "
-        "tied by the correspondence run only (no theorem): s[a:b:step] with a step (not generated either), upper/lower (no UTF-8 content; gpython has no rfind/index/partition), "
+        "third round, proved: window_fit_by_codepoints / window_codepoints / window_fit_needle (every early-exit and fit test of the start/end window is a matter of "
+        "code-point counts), ascii_roundtrip_str / ascii_is_ascii (builtin ascii), no_mixed_unit_comparison on the regenerated unit table; "
+        "NOT implemented by gpython (AttributeError, known finding C14-K02, specified in SpecMethods.lean and generated, no model beyond the method table): rfind, index, "
+        "rindex, rsplit, partition, rpartition, center, ljust, rjust, zfill; "
+        "tied by the correspondence run only (no theorem): s[a:b:step] with a step (not generated either), upper/lower (no UTF-8 content), dict displays and str() of containers, "
         "the display syntax of nested tuples/lists, int and float literals, and the agreement of readString/DecodeEscape with Spec.evalSource on whole "
         "literals (lit cases; single-line literals: triple-quoted and continuation-line forms are outside model and spec)",
         "a py.String holds valid UTF-8 (every constructor reachable from Python source produces valid UTF-8; chr() of a surrogate yields U+FFFD: C14-K01)",
@@ -45,5 +67,22 @@ CONFIG = {
     "exhaustive": True,
     "dist_tokens": 2,
     "group": lambda r: "lit" if r["input"].startswith("lit ") else
-             " ".join(r["input"].split(" ")[:2]) if not r["input"].startswith("rt ") else "rt " + r["input"][3:4],
+             " ".join(r["input"].split(" ")[:2]) if not r["input"].startswith("rt") else r["input"].split(" ")[0] + " " + r["input"].split(" ")[1][:1],
 }
+
+
+def pre(run):
+    """regenerate lean/GPy/C14/Generated/Units.lean (byte/rune unit table of py/string.go) from the working tree"""
+    out_lean = os.path.join(common.LEAN, "GPy", "C14", "Generated", "Units.lean")
+    before = open(out_lean).read() if os.path.exists(out_lean) else ""
+    rc, out = common.sh(["go", "run", ".", common.REPO, out_lean], cwd=os.path.join(common.ROOT, "extract", "c14units"),
+                        env=common.GOENV, timeout=600)
+    after = open(out_lean).read() if os.path.exists(out_lean) else ""
+    run.cov["unit_table"] = {"cmd": "cd extract/c14units && go run . <repo> lean/GPy/C14/Generated/Units.lean",
+                             "exit": rc, "output": out.strip()[-300:],
+                             "generated_file_differs_from_committed_baseline": after != before and before != "",
+                             "generated_sha1": __import__("hashlib").sha1(after.encode()).hexdigest()}
+    if rc != 0:
+        run.violation({"kind": "extractor", "broken": "extract/c14units cannot analyse py/string.go of the working tree any more: "
+                       "units_table_pinned / no_mixed_unit_comparison are no longer about the current code",
+                       "output": out[-2000:]}, nofail=True)
